@@ -573,6 +573,7 @@ fn run_case(c: &[u64]) -> Option<Vec<u64>> {
         1 => run_mode1(c),
         2 => run_mode2(c),
         3 => run_mode3(c),
+        5 => fallback::run(c),
         _ => None,
     }
 }
@@ -973,8 +974,463 @@ pub fn main(args: &Args) {
             0 | 1 => gen_mode1(&mut r),
             2 => gen_mode2(&mut r),
             3 | 4 => gen_mode3(&mut r),
+            9 => fallback::gen(&mut r),
             _ => gen_mode0(&mut r, thorough),
         };
         out.emit(&c, &exec(&c));
     }
+}
+
+// ------------------------------------------------------------------ mode 5
+/// C03, mode 5: the fallback-name -> main-protocol mapping of `ProtocolSet`.
+mod fallback {
+    // C03, mode 5: the fallback-name -> main-protocol mapping of `ProtocolSet`.
+    // Case / trace formats: coq/C03/Fallback.v.
+    //
+    // A real `ProtocolSet` is built from real `ProtocolContext`s (one tokio mpsc channel per main
+    // protocol, receivers kept here); every report of the case calls the real
+    // `report_substream_open` with a real (TCP-flavoured, yamux-backed) `Substream` and a real
+    // `Permit`, and the `InnerTransportEvent::SubstreamOpened` is read back from the receivers.
+    // The trace ends with the real `protocols_with_keep_alives()` table, each offered name paired
+    // with the main protocol that the real `protocol_codec()` resolves it to.
+    //
+    // The one unspecified behaviour (a fallback name declared by several main protocols: the
+    // winner depends on the iteration order of a `HashMap` with a per-instance random hasher) is
+    // steered, not guessed: the configuration list of the case is read as "the iteration order",
+    // i.e. the last declarer wins, and the `ProtocolSet` is rebuilt (fresh hasher keys every
+    // time) until the real table agrees with that order on every shared name.
+    use crate::util::Rng;
+    use futures::{io::Cursor, task::noop_waker};
+    use litep2p::{
+        codec::ProtocolCodec,
+        error::{NegotiationError, SubstreamError},
+        protocol::{
+            verif_protocol_set::{
+                InnerTransportEvent, ProtocolContext, ProtocolSet, TransportManagerEvent,
+            },
+            Direction, SubstreamKeepAlive,
+        },
+        substream::Substream,
+        types::{ConnectionId, SubstreamId},
+        verif_multistream_select::{NegotiationError as MsNegotiationError, ProtocolError},
+        yamux, PeerId, ProtocolName,
+    };
+    use std::{
+        collections::HashMap,
+        task::{Context, Poll},
+    };
+    use tokio::sync::mpsc::{channel, Receiver};
+
+    // ------------------------------------------------------------------ case decoding
+
+    struct Cur<'a> {
+        c: &'a [u64],
+        i: usize,
+    }
+    impl<'a> Cur<'a> {
+        fn n(&mut self) -> Option<u64> {
+            let v = *self.c.get(self.i)?;
+            self.i += 1;
+            Some(v)
+        }
+        /// count of a count-prefixed list, bounded by the remaining input (as `plist` in Wire.v)
+        fn count(&mut self) -> Option<usize> {
+            let k = self.n()?;
+            if k > (self.c.len() - self.i) as u64 {
+                return None;
+            }
+            Some(k as usize)
+        }
+        fn list(&mut self) -> Option<Vec<u64>> {
+            let k = self.count()?;
+            let v = self.c[self.i..self.i + k].to_vec();
+            self.i += k;
+            Some(v)
+        }
+        /// a name: count-prefixed list of (count byte) runs; only ASCII bytes are accepted
+        fn name(&mut self) -> Option<Vec<u8>> {
+            let runs = self.count()?;
+            let mut out = vec![];
+            for _ in 0..runs {
+                let c = self.n()?;
+                let b = self.n()?;
+                if c > 20000 {
+                    return None;
+                }
+                if b >= 128 && c > 0 {
+                    return None;
+                }
+                out.extend(std::iter::repeat(b as u8).take(c as usize));
+            }
+            Some(out)
+        }
+    }
+
+    struct Case {
+        pool: Vec<Vec<u8>>,
+        /// (main, fallbacks) as pool indices, in case order
+        cfg: Vec<(usize, Vec<usize>)>,
+        reps: Vec<usize>,
+    }
+
+    fn decode(c: &[u64]) -> Option<Case> {
+        let mut cur = Cur { c, i: 0 };
+        if cur.n()? != 5 {
+            return None;
+        }
+        let k = cur.count()?;
+        let pool: Vec<Vec<u8>> = (0..k).map(|_| cur.name()).collect::<Option<_>>()?;
+        let idx = |x: u64| -> Option<usize> { (x < pool.len() as u64).then_some(x as usize) };
+        let k = cur.count()?;
+        let mut cfg = vec![];
+        for _ in 0..k {
+            let m = cur.n()?;
+            let fs = cur.list()?;
+            cfg.push((m, fs));
+        }
+        let reps = cur.list()?;
+        if cur.i != c.len() {
+            return None;
+        }
+        let cfg: Vec<(usize, Vec<usize>)> = cfg
+            .into_iter()
+            .map(|(m, fs)| Some((idx(m)?, fs.into_iter().map(idx).collect::<Option<_>>()?)))
+            .collect::<Option<_>>()?;
+        let reps: Vec<usize> = reps.into_iter().map(idx).collect::<Option<_>>()?;
+        // a `HashMap<ProtocolName, ProtocolContext>` cannot hold two entries with one main name
+        for (a, (m, _)) in cfg.iter().enumerate() {
+            if cfg[..a].iter().any(|(m2, _)| pool[*m2] == pool[*m]) {
+                return None;
+            }
+        }
+        Some(Case { pool, cfg, reps })
+    }
+
+    // ------------------------------------------------------------------ running the real code
+
+    fn pname(b: &[u8]) -> ProtocolName {
+        // ASCII by construction
+        ProtocolName::from(String::from_utf8(b.to_vec()).expect("ascii"))
+    }
+
+    struct Built {
+        set: ProtocolSet,
+        rxs: Vec<Receiver<InnerTransportEvent>>,
+        _mgr_rx: Receiver<TransportManagerEvent>,
+    }
+
+    fn build(case: &Case) -> Built {
+        let (mgr_tx, mgr_rx) = channel(64);
+        let mut rxs = vec![];
+        let mut protocols = HashMap::new();
+        for (j, (m, fs)) in case.cfg.iter().enumerate() {
+            let (tx, rx) = channel(64);
+            rxs.push(rx);
+            protocols.insert(
+                pname(&case.pool[*m]),
+                ProtocolContext {
+                    tx,
+                    codec: ProtocolCodec::Identity(j + 1),
+                    fallback_names: fs.iter().map(|f| pname(&case.pool[*f])).collect(),
+                    keep_alive: if j % 2 == 0 { SubstreamKeepAlive::Yes } else { SubstreamKeepAlive::No },
+                },
+            );
+        }
+        let set = ProtocolSet::new(ConnectionId::from(0usize), mgr_tx, Default::default(), protocols);
+        Built { set, rxs, _mgr_rx: mgr_rx }
+    }
+
+    /// configuration position of the main protocol that the real `protocol_codec` resolves `name`
+    /// to (`name` must be an offered name, otherwise the real function panics)
+    fn codec_main(set: &ProtocolSet, name: &ProtocolName) -> Option<usize> {
+        match set.protocol_codec(name) {
+            ProtocolCodec::Identity(k) if k >= 1 => Some(k - 1),
+            _ => None,
+        }
+    }
+
+    /// Names declared as fallback by more than one configuration entry, with the position of the
+    /// last declarer.
+    fn shared(case: &Case) -> Vec<(Vec<u8>, usize)> {
+        let mut out: Vec<(Vec<u8>, usize, usize)> = vec![]; // name, last declarer, #declarers
+        for (j, (_, fs)) in case.cfg.iter().enumerate() {
+            for f in fs {
+                let n = &case.pool[*f];
+                match out.iter_mut().find(|(x, _, _)| x == n) {
+                    Some(e) if e.1 != j => {
+                        e.1 = j;
+                        e.2 += 1;
+                    }
+                    Some(_) => {}
+                    None => out.push((n.clone(), j, 1)),
+                }
+            }
+        }
+        out.into_iter().filter(|e| e.2 > 1).map(|e| (e.0, e.1)).collect()
+    }
+
+    fn build_steered(case: &Case) -> Built {
+        let sh = shared(case);
+        let mut b = build(case);
+        if sh.is_empty() {
+            return b;
+        }
+        for _ in 0..20000 {
+            if sh.iter().all(|(n, j)| codec_main(&b.set, &pname(n)) == Some(*j)) {
+                break;
+            }
+            b = build(case);
+        }
+        b
+    }
+
+    fn canon(pool: &[Vec<u8>], name: &[u8]) -> Option<u64> {
+        pool.iter().position(|n| n.as_slice() == name).map(|i| i as u64)
+    }
+
+    fn is_not_supported(e: &SubstreamError) -> bool {
+        matches!(
+            e,
+            SubstreamError::NegotiationError(NegotiationError::MultistreamSelectError(
+                MsNegotiationError::ProtocolError(ProtocolError::ProtocolNotSupported)
+            ))
+        )
+    }
+
+    pub fn run(c: &[u64]) -> Option<Vec<u64>> {
+        let case = decode(c)?;
+        let mut b = build_steered(&case);
+
+        // real substreams: outbound streams of a yamux connection over an in-memory socket that is
+        // never driven
+        let mut conn = yamux::Connection::new(
+            Cursor::new(Vec::<u8>::new()),
+            yamux::Config::default(),
+            yamux::Mode::Client,
+        );
+        let waker = noop_waker();
+        let mut cx = Context::from_waker(&waker);
+
+        let mut out = vec![1u64];
+        for (k, r) in case.reps.iter().enumerate() {
+            let negotiated = pname(&case.pool[*r]);
+            let stream = match conn.poll_new_outbound(&mut cx) {
+                Poll::Ready(Ok(s)) => s,
+                _ => return None,
+            };
+            let peer = PeerId::random();
+            let substream = Substream::new_verif_yamux(peer, SubstreamId::from(k), stream);
+            let permit = b.set.try_get_permit()?;
+            let res = futures::executor::block_on(b.set.report_substream_open(
+                peer,
+                negotiated,
+                Direction::Inbound,
+                substream,
+                permit,
+            ));
+            // what arrived, and on whose channel
+            let mut got = vec![];
+            for (j, rx) in b.rxs.iter_mut().enumerate() {
+                while let Ok(ev) = rx.try_recv() {
+                    got.push((j, ev));
+                }
+            }
+            match res {
+                Err(e) => {
+                    if !got.is_empty() {
+                        out.push(4);
+                    } else if is_not_supported(&e) {
+                        out.push(0);
+                    } else {
+                        out.push(3);
+                    }
+                }
+                Ok(()) => {
+                    if got.len() != 1 {
+                        out.extend([5, got.len() as u64]);
+                        continue;
+                    }
+                    let (j, ev) = got.pop().unwrap();
+                    match ev {
+                        InnerTransportEvent::SubstreamOpened {
+                            peer: p,
+                            protocol,
+                            fallback,
+                            direction,
+                            ..
+                        } => {
+                            let main_of_channel = case.pool[case.cfg[j].0].as_slice();
+                            if p != peer
+                                || direction != Direction::Inbound
+                                || protocol.as_bytes() != main_of_channel
+                            {
+                                // delivered to a channel that does not belong to the reported name
+                                out.extend([2, canon(&case.pool, main_of_channel)?]);
+                                continue;
+                            }
+                            let mi = canon(&case.pool, protocol.as_bytes())?;
+                            match fallback {
+                                Some(f) => match canon(&case.pool, f.as_bytes()) {
+                                    Some(fi) => out.extend([1, mi, 1, fi]),
+                                    None => out.extend([6, mi]),
+                                },
+                                None => out.extend([1, mi, 0, 0]),
+                            }
+                        }
+                        _ => out.push(7),
+                    }
+                }
+            }
+        }
+
+        // the offered table (what the connection feeds to multistream-select), canonicalised:
+        // sorted by pool index
+        let mut offered: Vec<[u64; 3]> = vec![];
+        for (name, ka) in b.set.protocols_with_keep_alives() {
+            let ni = canon(&case.pool, name.as_bytes())?;
+            let j = codec_main(&b.set, &name)?;
+            let mi = canon(&case.pool, &case.pool[case.cfg.get(j)?.0])?;
+            offered.push([ni, mi, (ka == SubstreamKeepAlive::Yes) as u64]);
+        }
+        offered.sort();
+        out.push(offered.len() as u64);
+        for o in offered {
+            out.extend(o);
+        }
+        Some(out)
+    }
+
+    // ------------------------------------------------------------------ generator
+
+    fn rle(b: &[u8]) -> Vec<u64> {
+        let mut runs: Vec<(u64, u8)> = vec![];
+        for x in b {
+            match runs.last_mut() {
+                Some((c, y)) if y == x => *c += 1,
+                _ => runs.push((1, *x)),
+            }
+        }
+        let mut out = vec![runs.len() as u64];
+        for (c, b) in runs {
+            out.extend([c, b as u64]);
+        }
+        out
+    }
+
+    const NAMES: &[&[u8]] = &[
+        b"/a",
+        b"/a/b",
+        b"/a/b/c",
+        b"/b",
+        b"/c",
+        b"/ab",
+        b"/proto/1",
+        b"/proto/1/fallback",
+        b"/notif/1",
+        b"/notif/1/fallback/1",
+        b"/notif/1/fallback/2",
+        b"/ipfs/kad/1.0.0",
+        b"/",
+        b"",
+        b"/aa",
+    ];
+
+    /// 1-4 main protocols with 0-3 fallback names each over a small pool with nested names.
+    /// About 80% of the cases are well-formed (every name has one role); the rest has one or two
+    /// degenerate twists: a fallback name equal to a main name (its own or another's), a fallback
+    /// name shared by two mains, a fallback repeated within one main. Reports mix fallback, main
+    /// and unknown names. The pool occasionally repeats a name under two indices.
+    pub fn gen(rng: &mut Rng) -> Vec<u64> {
+        // pool: a shuffled selection of distinct names
+        let mut all: Vec<&[u8]> = NAMES.to_vec();
+        for i in (1..all.len()).rev() {
+            let j = rng.below(i as u64 + 1) as usize;
+            all.swap(i, j);
+        }
+        let np = rng.range(3, 10) as usize;
+        let mut pool: Vec<Vec<u8>> = all[..np].iter().map(|n| n.to_vec()).collect();
+        // distinct-name indices still free
+        let mut free: Vec<usize> = (0..np).collect();
+        let nm = rng.range(1, 4).min(np as u64 - 1) as usize;
+        let mut cfg: Vec<(usize, Vec<usize>)> = vec![];
+        for _ in 0..nm {
+            let m = free.remove(rng.below(free.len() as u64) as usize);
+            cfg.push((m, vec![]));
+        }
+        for e in cfg.iter_mut() {
+            let nf = rng.below(4);
+            for _ in 0..nf {
+                if free.len() > 1 || (free.len() == 1 && rng.chance(50)) {
+                    let f = free.remove(rng.below(free.len() as u64) as usize);
+                    e.1.push(f);
+                }
+            }
+        }
+        if rng.chance(22) {
+            for _ in 0..rng.range(1, 2) {
+                let n = cfg.len();
+                let a = rng.below(n as u64) as usize;
+                match rng.below(5) {
+                    1 | 2 | 3 if n > 1 => {
+                        // a fallback shared with another main
+                        let b = (a + 1 + rng.below(n as u64 - 1) as usize) % n;
+                        if let Some(f) = cfg[b].1.first().copied() {
+                            let at = rng.below(cfg[a].1.len() as u64 + 1) as usize;
+                            cfg[a].1.insert(at, f);
+                        } else if let Some(f) = free.first().copied() {
+                            cfg[a].1.push(f);
+                            cfg[b].1.push(f);
+                        } else {
+                            let f = cfg[a].0;
+                            cfg[a].1.push(f);
+                            cfg[b].1.push(f);
+                        }
+                    }
+                    4 if !cfg[a].1.is_empty() => {
+                        // a fallback repeated within one main (harmless, still well-formed)
+                        let f = cfg[a].1[0];
+                        cfg[a].1.push(f);
+                    }
+                    _ => {
+                        // a fallback equal to a main name (possibly its own)
+                        let b = rng.below(n as u64) as usize;
+                        let m = cfg[b].0;
+                        cfg[a].1.push(m);
+                    }
+                }
+            }
+        }
+        // the same name under a second pool index
+        if rng.chance(10) {
+            let i = rng.below(pool.len() as u64) as usize;
+            let n = pool[i].clone();
+            pool.push(n);
+        }
+        let nr = rng.range(1, 6);
+        let mut reps = vec![];
+        for _ in 0..nr {
+            let e = &cfg[rng.below(cfg.len() as u64) as usize];
+            let r = match rng.below(10) {
+                0..=4 if !e.1.is_empty() => e.1[rng.below(e.1.len() as u64) as usize],
+                0..=6 => e.0,
+                _ => rng.below(pool.len() as u64) as usize,
+            };
+            reps.push(r);
+        }
+
+        let mut c = vec![5, pool.len() as u64];
+        for n in &pool {
+            c.extend(rle(n));
+        }
+        c.push(cfg.len() as u64);
+        for (m, fs) in &cfg {
+            c.push(*m as u64);
+            c.push(fs.len() as u64);
+            c.extend(fs.iter().map(|f| *f as u64));
+        }
+        c.push(reps.len() as u64);
+        c.extend(reps.iter().map(|r| *r as u64));
+        c
+    }
+
 }
